@@ -11,11 +11,20 @@ def main():
     jobs = json.load(open(path))
     mod = importlib.import_module("vf.props." + pid.lower())
     out = []
+    hit = set()
     for j in jobs:
+        grp = j.get("group")
+        if grp is not None and grp in hit:
+            # a counterexample of this group already reproduced in this run: further candidates of the same
+            # group are the same finding and are not replayed again
+            out.append({"skipped_same_group": grp, "gap": 0.0})
+            continue
         try:
             r = mod.concrete(j["family"], j["params"])
         except Exception as e:
             r = {"error": "%s: %s\n%s" % (type(e).__name__, e, traceback.format_exc()[-800:])}
+        if grp is not None and r.get("gap", 0.0) > 1e-8:
+            hit.add(grp)
         out.append(r)
     print("CONCRETE-RESULTS " + json.dumps(out, default=str))
 
